@@ -2,8 +2,14 @@
 //!
 //! usage: verif-sim check <property> <quick|thorough> | worker ... | replay <file> | self <what>
 
+mod check;
 mod engine;
+mod gen;
+mod hist;
+mod inv;
+mod obs;
 mod ops;
+mod profiles;
 mod rng;
 mod world;
 
@@ -89,6 +95,117 @@ fn main() {
     let args: Vec<String> = std::env::args().collect();
     match args.get(1).map(|s| s.as_str()) {
         Some("smoke") => smoke(),
+        Some("check") => {
+            let prop = args.get(2).cloned().unwrap_or_default();
+            let thorough = args.get(3).map(|s| s == "thorough").unwrap_or(false) || std::env::var("VERIF_TIER").map(|t| t == "thorough").unwrap_or(false) && args.get(3).is_none();
+            let code = match prop.as_str() {
+                "C03" | "C04" | "C05" | "C06" | "C10" | "C12" | "C13" => check::check_hist(&prop, thorough),
+                _ => {
+                    eprintln!("unknown or unclaimed property {prop}");
+                    2
+                }
+            };
+            std::process::exit(code);
+        }
+        Some("hist-worker") => {
+            let prop = &args[2];
+            let thorough = args[3] == "thorough";
+            let base: u64 = args[4].parse().unwrap();
+            let idx: u64 = args[5].parse().unwrap();
+            let stride: u64 = args[6].parse().unwrap();
+            let total: u64 = args[7].parse().unwrap();
+            let out = check::hist_worker(prop, thorough, base, idx, stride, total, std::path::Path::new(&args[8]));
+            println!("{}", serde_json::to_string(&out).unwrap());
+        }
+        Some("replay") => {
+            let path = args.get(2).cloned().unwrap_or_default();
+            let text = match std::fs::read_to_string(&path) {
+                Ok(t) => t,
+                Err(e) => {
+                    eprintln!("cannot read {path}: {e}");
+                    std::process::exit(2);
+                }
+            };
+            let v: serde_json::Value = serde_json::from_str(&text).unwrap_or_default();
+            let code = match v.get("kind").and_then(|k| k.as_str()) {
+                Some("hist") => match serde_json::from_value::<check::HistReplay>(v) {
+                    Ok(rep) => check::replay_hist(&rep),
+                    Err(e) => {
+                        eprintln!("bad replay file: {e}");
+                        2
+                    }
+                },
+                _ => {
+                    eprintln!("unknown replay kind");
+                    2
+                }
+            };
+            std::process::exit(code);
+        }
+        Some("hist") => {
+            // hist <props|all> <first seed> <runs> [ghost ppm]
+            let props = args.get(2).map(|s| s.as_str()).unwrap_or("all");
+            let first: u64 = args.get(3).and_then(|s| s.parse().ok()).unwrap_or(1);
+            let runs: u64 = args.get(4).and_then(|s| s.parse().ok()).unwrap_or(100);
+            let ppm: u32 = args.get(5).and_then(|s| s.parse().ok()).unwrap_or(0);
+            let mut sigs: std::collections::BTreeMap<String, (u64, String, u64)> = Default::default();
+            let t0 = std::time::Instant::now();
+            let mut nops = 0;
+            let mut nerr = 0;
+            let mut maxn = 0;
+            let mut kinds: std::collections::BTreeMap<String, u64> = Default::default();
+            let mut errk: std::collections::BTreeMap<String, u64> = Default::default();
+            let show = std::env::var("SHOW").is_ok();
+            for seed in first..first + runs {
+                let prof = gen::Profile {
+                    name: "explore",
+                    weights: if props == "C12" { gen::all_weights() } else { gen::base_weights() },
+                    stale_permille: 40,
+                    self_permille: 30,
+                    foreign_permille: 40,
+                    bad_permille: 60,
+                    load_fault_permille: 300,
+                };
+                let cfg = hist::HistCfg {
+                    seed,
+                    profile: prof,
+                    n_ops: 10 + (seed % 50) as usize,
+                    max_nodes: 150,
+                    ghost: if ppm > 0 { engine::Ghost::Random { ppm, max: 1 } } else { engine::Ghost::Off },
+                    props: if props == "all" { hist::PropSel::all() } else { hist::PropSel::only(props) },
+                    scripted: None,
+                    keep_trace: false,
+                    reload_every: 0,
+                    stop_at_first: true,
+                };
+                let r = hist::run_history(&cfg);
+                if show {
+                    for o in &r.ops {
+                        println!("  #{} {}  ->  {}", o.label, o.op.as_ref().map(|x| x.brief()).unwrap_or_default(), o.ret.chars().take(200).collect::<String>());
+                    }
+                    for v in &r.violations {
+                        println!("  !! {} {} :: {}", v.prop, v.sig, v.detail);
+                    }
+                }
+                nops += r.ops.len();
+                nerr += r.errs;
+                maxn = maxn.max(r.max_nodes_seen);
+                for (k, v) in &r.kinds { *kinds.entry(k.clone()).or_default() += v; }
+                for (k, v) in &r.err_kinds { *errk.entry(k.clone()).or_default() += v; }
+                for v in &r.violations {
+                    let e = sigs.entry(format!("{} {}", v.prop, v.sig)).or_insert((0, v.detail.clone(), seed));
+                    e.0 += 1;
+                }
+            }
+            println!("{runs} histories, {nops} ops, {nerr} errors, max nodes {maxn}, {:?}", t0.elapsed());
+            if std::env::var("VERBOSE").is_ok() {
+                println!("kinds: {kinds:?}");
+                println!("errors: {errk:?}");
+            }
+            for (s, (n, d, seed)) in &sigs {
+                println!("{n:6} {s}\n         seed {seed}: {d}");
+            }
+        }
         _ => {
             eprintln!("usage: verif-sim check <property> <quick|thorough> | replay <file> | self <what>");
             std::process::exit(2);
